@@ -156,6 +156,7 @@ func runC08(c *Ctx) {
 	}
 	// the decoder's root result: a document that is just 'null' decodes to a nil *Spec
 	nDeref += c.decoderRootGuarded("C08.K2", fns)
+	nDeref += c.ociSectionsGuarded("C08.K2", fns)
 	r.Analysed["C08.K2.derefs_examined"] = nDeref
 
 	// ---- K3, K4, K7
@@ -534,6 +535,80 @@ func (c *Ctx) decoderRootGuarded(rule string, fns []*ssa.Function) int {
 				r.Check(rule, "decoder-root:"+c.U.RelName(f), guarded, c.pos(ref), "the *Spec returned by ParseSpec (nil for an empty or 'null' document) is used only after a nil test: such a file is a per-file error, not a crash of the whole refresh")
 			}
 		}
+	}
+	return n
+}
+
+// ociSectionsGuarded: the optional sections of the OCI spec handed to injection (Process,
+// Linux, Hooks, Linux.Resources, ... - pointer fields of runtime-spec structs) are nil in a
+// minimal spec. A selection through such a pointer needs a dominating nil test of it or, on
+// every path, an earlier call that allocates the section (a generator method or helper whose
+// write effects include a store to that field). Returns the number of selections examined.
+func (c *Ctx) ociSectionsGuarded(rule string, fns []*ssa.Function) int {
+	r := c.R
+	n := 0
+	isOCI := func(t types.Type) bool {
+		if p, ok := t.(*types.Pointer); ok {
+			t = p.Elem()
+		}
+		nm, ok := t.(*types.Named)
+		return ok && nm.Obj().Pkg() != nil && strings.HasSuffix(nm.Obj().Pkg().Path(), "runtime-spec/specs-go")
+	}
+	for _, f := range fns {
+		if len(f.Blocks) == 0 {
+			continue
+		}
+		ir.Instrs(f, func(in ssa.Instruction) {
+			fa, ok := in.(*ssa.FieldAddr)
+			if !ok {
+				return
+			}
+			// fa.X is a loaded pointer field of an OCI struct: *(&owner.Section)
+			ld, ok := fa.X.(*ssa.UnOp)
+			if !ok || ld.Op != token.MUL {
+				return
+			}
+			inner, ok := ld.X.(*ssa.FieldAddr)
+			if !ok || !isOCI(inner.X.Type()) {
+				return
+			}
+			if _, isPtr := ld.Type().Underlying().(*types.Pointer); !isPtr {
+				return
+			}
+			section := ir.StructOf(inner.X.Type()).Field(inner.Field).Name()
+			d := c.valueDesc(ld)
+			if !strings.HasPrefix(d, "param:") {
+				return // a spec object built here
+			}
+			n++
+			guarded := false
+			for _, g := range c.guardsOf(f, in) {
+				if g == "nonnil("+d+")" {
+					guarded = true
+				}
+			}
+			if !guarded {
+				guarded = ir.MustPassBefore(f, in, func(x ssa.Instruction) bool {
+					call, isCall := x.(ssa.CallInstruction)
+					if !isCall {
+						return false
+					}
+					for _, callee := range c.U.Callees(call) {
+						if callee == nil {
+							continue
+						}
+						for _, w := range c.U.EffectsOf(callee).Writes {
+							if len(w.Path.Sels) > 0 && w.Path.Sels[len(w.Path.Sels)-1].F != nil && w.Path.Sels[len(w.Path.Sels)-1].F.Name() == section && (w.Kind == "store") {
+								return true
+							}
+						}
+					}
+					return false
+				})
+			}
+			key := fmt.Sprintf("oci-section:%s:%s", c.U.RelName(f), normGuards(f, []string{d})[0])
+			r.Check(rule, key, guarded, c.pos(in), fmt.Sprintf("%s selects through %s (nil in a minimal OCI spec) only under a nil test or after a call that allocates the section", c.U.RelName(f), d))
+		})
 	}
 	return n
 }
